@@ -385,11 +385,14 @@ def svd_stub(a, full_matrices=True, compute_uv=True, **kw):
         if i:
             c.axioms.append(SymBool.cmp('<=', S[i].re - S[i - 1].re))
     Vh = SymArray((n, n))
-    cplx = True
+    cplx = is_complex_array(a)      # LAPACK returns real factors for a real matrix
     for i in range(n):
         for j in range(n):
             nm = c.fresh_name("svd_V%d_%d" % (i, j))
-            Vh[i, j] = Sym(Q.var(nm + "_re", kind='svd'), Q.var(nm + "_im", kind='svd'), True)
+            if cplx:
+                Vh[i, j] = Sym(Q.var(nm + "_re", kind='svd'), Q.var(nm + "_im", kind='svd'), True)
+            else:
+                Vh[i, j] = Sym(Q.var(nm, kind='svd'))
     c.svd_last = (a, S, Vh)
     memo[mkey] = (S, Vh)
     return None, S.copy(), Vh.copy()
